@@ -245,7 +245,8 @@ VALUES = [None, True, False, 0, 1, 1.0, 0.0, 7, -3, 2.5, -0.25, 10.0, [True, 1.0
 CTC_EXTRA = [('EQUALS', ('ADD', 'F1', 'F2'), 3), ('LOWER', ('MUL', 'F1', 2), ('DIV', 'F2', ('SUB', 'F1', 1))), ('GREATER', ('SUM', 'cost', 'F1'), 3),
              ('NOT_EQUALS', ('AVG', 'cost', 'F1'), 2.5), ('EQUALS', 'F1', "'txt'"), ('GREATER_EQUALS', 'F1', 1), ('LOWER_EQUALS', 2, 'F1'),
              ('AND', ('GREATER', 'F1', 0), ('IMPLIES', 'F2', ('LOWER', ('SUB', 'F1', 'F2'), 4))), ('EQUALS', ('SUB', ('SUB', 'F1', 'F2'), 'F1'), 0),
-             ('EQUALS', ('SUB', 'F1', ('SUB', 'F2', 'F1')), 0), ('EQUALS', ('DIV', ('MUL', 'F1', 'F2'), ('ADD', 'F1', 2)), 1.5)]
+             ('EQUALS', ('SUB', 'F1', ('SUB', 'F2', 'F1')), 0), ('EQUALS', ('DIV', ('MUL', 'F1', 'F2'), ('ADD', 'F1', 2)), 1.5),
+             ('EQUALS', 'F1', 0.0), ('GREATER', -1, 'F1'), ('LOWER', ('ADD', 'F1', -2.5), ('MUL', 0, 'F2')), ('NOT_EQUALS', 0, ('SUB', 0.0, 'F1'))]
 
 
 def replay_file(shape, cards, names, abstract, tcodes, fcards, attrs, trees):
